@@ -31,12 +31,22 @@ Templates(L) ==
      C2("hassubset", Lst(<<L, K>>), Lst(<<K>>)),
      Bool("and", Cmp("eq", s, L), Cmp("eq", u, K)), Bool("or", Cmp("eq", s, K), Un("not", Cmp("eq", u, L))),
      Cmp("eq", Cmp("eq", s, L), BoolL("true")), Cmp("eq", C1("year", L), one), Cmp("eq", C1("date", L), Lit("Date", "2020-01-01")),
-     Cmp("eq", Bin("add", C1("length", L), C2("indexof", L, K)), one) >>
+     Cmp("eq", Bin("add", C1("length", L), C2("indexof", L, K)), one),
+     \* a string next to operands of every other literal type (type-directed rendering must not re-interpret the string)
+     Cmp("eq", C1("date", s), L), Cmp("ge", L, Lit("Date", "2020-01-01")), Cmp("lt", L, Lit("DateTime", "2020-01-01T10:00:00Z")),
+     Cmp("eq", C1("time", s), L), Cmp("eq", L, Lit("Time", "10:00:00")), Cmp("eq", Lit("GUID", "123e4567-e89b-12d3-a456-426614174000"), L),
+     Cmp("eq", L, one), Cmp("gt", Lit("Float", "1.5"), L), Cmp("eq", L, BoolL("true")), Cmp("eq", L, Lit("Null", "null")),
+     Cmp("eq", C1("year", s), L), Cmp("in", C1("date", s), Lst(<<L, Lit("Date", "2020-01-01")>>)) >>
 Benign == <<120>>
 Q == 39
 Contents == << <<Q>>, <<Q, Q>>, <<120, Q>>, <<Q, 32, 79, 82, 32, Q, 49, Q, 61, Q, 49>>, <<45, 45>>, <<120, Q, 45, 45>>, <<47, 42>>, <<42, 47>>,
                <<59>>, <<Q, 59, 68, 82, 79, 80>>, <<92>>, <<92, Q>>, <<Q, 92>>, <<0>>, <<120, 0, Q>>, <<8217>>, <<65287>>, <<65282>>, <<37>>, <<95>>,
-               <<37, Q>>, <<34>>, <<10>>, <<Q, 10, 45, 45>>, <<>>, <<Q, 41>>, <<Q, 32, 124, 124, 32, Q>>, <<233, 128165>> >>
+               <<37, Q>>, <<34>>, <<10>>, <<Q, 10, 45, 45>>, <<>>, <<Q, 41>>, <<Q, 32, 124, 124, 32, Q>>, <<233, 128165>>,
+               \* contents shaped like literals of other types, alone and followed by a quote and SQL
+               StrCps("2020-01-01"), StrCps("2020-01-01") \o <<Q, 41, 32, 79, 82, 32, 49, 61, 49, 32, 45, 45>>,
+               StrCps("2020-01-01T10:00:00Z") \o <<Q>>, StrCps("10:00:00") \o <<Q, 59>>, StrCps("1") \o <<Q>>, StrCps("1.5e3") \o <<Q, 45, 45>>,
+               StrCps("123e4567-e89b-12d3-a456-426614174000") \o <<Q>>, StrCps("null") \o <<Q>>, StrCps("true") \o <<Q, 32, 79, 82, 32, Q, Q, 61, Q>>,
+               StrCps("P1D") \o <<Q>> >>
 \* field-name spellings (code points): ASCII, upper case, digits, underscore, namespaced, non-ASCII word characters
 FieldNames == << <<97>>, <<65>>, <<97, 49>>, <<95, 120>>, <<110, 115, 46, 102>>, <<65, 46, 66>>, <<233>>, <<65345>>, <<97, 95, 95, 98>>,
                  <<115, 101, 108, 101, 99, 116>>, <<120, 1593>> >>
